@@ -146,7 +146,7 @@ def run(tier: str) -> int:
                 "1 <= k <= n <= 40, p in {1,3}, validated by TLC (OutlierAdmits).  Non-trivial = the arguments are "
                 "inconsistent (must raise) or at least one segment/anomaly is placed; distinct by hash.")
     chk.assumptions = ["TLC/SANY and the Json module", "variances are perfect squares so that sqrt is exact",
-                       "changepoints equal to 0, duplicated or unsorted and n_outliers > n are not judged (DESIGN 7/C18)"]
+                       "unsorted changepoints and n_outliers > n are not judged (the statement does not define them); a changepoint at 0 or a repeated one requests an empty segment"]
     with Workdir(PROP) as wd:
         cfgs = [("N4-P2", dict(N=4, P=2, MaxK=2), 1, None), ("N5-P1", dict(N=5, P=1, MaxK=2), 1, None)] if tier == "quick" else \
             [("N4-P2", dict(N=4, P=2, MaxK=2), 1, None), ("N6-P1", dict(N=6, P=1, MaxK=2), 4, None),
